@@ -6,7 +6,7 @@ import props
 ID = "C10"
 INFO = ("YInput (TLA+): the Input contract as an abstract machine and its two refinements (string slice with a high-water mark, ring buffer of capacity K with NUL padding); "
         "MC_Input checks on every contract-respecting operation sequence over small texts that both refinements answer every operation as the abstract input does. "
-        "Gen_Input: the abstract input's answers to all 30 trait operations at every offset of every text <= 3 (quick) / 4 (thorough) over 14 symbols are replayed on the real "
+        "Gen_Input: the abstract input's answers to all 30 trait operations at every offset of every text <= 3 (quick) / 4 (thorough) over 16 symbols are replayed on the real "
         "StrInput and BufferedInput (difference from the specification on both alike = drift; difference between the two = lead, followed up by parsing documents that embed the text). "
         "Every pool text is parsed by the real code through StrInput, BufferedInput and contract-asserting inputs of capacity 8/16/64/128; pairs that differ in any event, span or error, "
         "and a 1% sample of identical ones, are judged by Trace_Rel (YRel!SameRun) in TLC.",
